@@ -319,6 +319,22 @@ Theorem C20_gen_plan_decode_errors :
 Proof. exact gen_sim_plan_decode_errors. Qed.
 Print Assumptions C20_gen_plan_decode_errors.
 
+(* cmd/simulator main: the process exits with status 1 exactly when AllProgressComplete is false; AllProgressComplete returns what checkProgress stored *)
+Theorem C20_gen_exit_status :
+  forall ts,
+  fst (g_sim_main_exit (verdict ts)) = (if verdict ts then [] else [1]) /\
+  g_sim_all_progress_complete = ([1], RetO 1) /\ g_sim_check_progress = ([1; 2; 3], Fall).
+Proof. exact gen_sim_exit_status. Qed.
+Print Assumptions C20_gen_exit_status.
+
+(* checkProgress: the renderer is stopped early only when something is registered and nothing is active; the done signal waits, then stops *)
+Theorem C20_gen_check_progress_loop :
+  forall n a,
+  g_sim_check_progress_body false n a = ([2; 3; 1], Fall) /\
+  fst (g_sim_check_progress_body true n a) = (if (0 <? n) && (a =? 0) then [1] else []).
+Proof. exact gen_sim_check_progress_body. Qed.
+Print Assumptions C20_gen_check_progress_loop.
+
 End GenTie.
 
 (* Non-vacuity: four ids (the case that crashed a real run) give a summary; three performs
